@@ -224,4 +224,103 @@ theorem decls_print : (ts : List Tmpl) → (level sq : Nat) → (s rest : Text) 
         simp only [decls, ht.2, Bool.false_eq_true, if_false, ht.1, hts, normL]
 end
 
+/-! ### fuel: the text is long enough -/
+
+theorem printGrid_len (n : Text) (kids : List BaseV) (level sq : Nat) (s : Text)
+    (hp : printGrid n kids level sq = .ok s) : 2 ≤ s.length := by
+  unfold printGrid at hp
+  cases kids with
+  | nil => cases hp
+  | cons a maps =>
+    simp only at hp
+    cases h1 : printBase a (level + 2) sq with
+    | error e => rw [h1] at hp; cases hp
+    | ok sa =>
+      rw [h1] at hp
+      cases h2 : printBases maps (level + 2) sq with
+      | error e => rw [h2] at hp; cases hp
+      | ok sm =>
+        rw [h2] at hp
+        injection hp with hp; subst hp
+        simp only [List.length_append, closeText, List.length_cons]; omega
+
+mutual
+theorem needT_len : (t : Tmpl) → (level sq : Nat) → (s : Text) → printT t level sq = .ok s → needT t + 1 ≤ s.length
+  | .base b, level, sq, s, hp => by
+    simp only [printT] at hp
+    have := printBase_len b level sq s hp
+    simp only [needT]; omega
+  | .grid n kids, level, sq, s, hp => by
+    simp only [printT] at hp
+    have := printGrid_len n kids level sq s hp
+    simp only [needT]; omega
+  | .struct n kids, level, sq, s, hp => by
+    simp only [printT] at hp
+    cases hb : printL kids (level + 1) sq with
+    | error e => rw [hb] at hp; cases hp
+    | ok body =>
+      rw [hb] at hp
+      injection hp with hp; subst hp
+      have := needL_len kids (level + 1) sq body hb
+      simp only [needT, List.length_append, closeText, List.length_cons, String.toList]
+      simp only [List.length_append, List.length_cons, List.length_nil]
+      omega
+  | .seq n kids, level, sq, s, hp => by
+    simp only [printT] at hp
+    cases hb : printL kids (level + 1) (sq + 1) with
+    | error e => rw [hb] at hp; cases hp
+    | ok body =>
+      rw [hb] at hp
+      injection hp with hp; subst hp
+      have := needL_len kids (level + 1) (sq + 1) body hb
+      simp only [needT, List.length_append, closeText, List.length_cons]
+      omega
+theorem needL_len : (ts : List Tmpl) → (level sq : Nat) → (s : Text) → printL ts level sq = .ok s → needL ts ≤ s.length
+  | [], level, sq, s, hp => by simp [needL]
+  | t :: ts, level, sq, s, hp => by
+    simp only [printL] at hp
+    cases h1 : printT t level sq with
+    | error e => rw [h1] at hp; cases hp
+    | ok st =>
+      rw [h1] at hp
+      cases h2 : printL ts level sq with
+      | error e => rw [h2] at hp; cases hp
+      | ok sr =>
+        rw [h2] at hp
+        injection hp with hp; subst hp
+        have := needT_len t level sq st h1
+        have := needL_len ts level sq sr h2
+        simp only [needL, List.length_append]; omega
+end
+
+/-! ### datasets -/
+
+def WFds (d : Dataset) : Prop := NameOk d.name ∧ WFL d.kids ∧ (d.kids.map Tmpl.name).Nodup
+
+theorem parse_print (d : Dataset) (s : Text) (hp : printDs d = .ok s) (hwf : WFds d) :
+    parseDds s = .ok (normDs d) := by
+  unfold printDs at hp
+  cases hb : printL d.kids 1 0 with
+  | error e => rw [hb] at hp; cases hp
+  | ok body =>
+    rw [hb] at hp
+    injection hp with hp; subst hp
+    have hlen := needL_len d.kids 1 0 body hb
+    have e0 : "Dataset {\n".toList ++ body ++ closeText 0 d.name
+        = "Dataset".toList ++ (' ' :: '{' :: '\n' :: (body ++ (closeText 0 d.name ++ []))) := by
+      simp
+    have s1 : consumeLit "dataset".toList ("Dataset".toList ++ (' ' :: '{' :: '\n' :: (body ++ (closeText 0 d.name ++ []))))
+        = .ok ('{' :: '\n' :: (body ++ (closeText 0 d.name ++ []))) := by
+      rw [consumeLit_prefix _ _ _ (by decide), lstrip_cons_space _ (by decide), lstrip_cons_nonspace _ (by decide)]
+    have s2 : consumeLit ['{'] ('{' :: '\n' :: (body ++ (closeText 0 d.name ++ [])))
+        = .ok (lstrip (body ++ (closeText 0 d.name ++ []))) := by
+      rw [consumeLit_one _ _ _ rfl, lstrip_cons_space _ (by decide)]
+    have s3 := decls_print d.kids 1 0 body (closeText 0 d.name ++ [])
+      ("Dataset".toList ++ (' ' :: '{' :: '\n' :: (body ++ (closeText 0 d.name ++ [])))).length hb hwf.2.1
+      (by simp only [List.length_append, List.length_cons]; omega) (closing_peek 0 d.name [])
+    have s4 := closing_print 0 d.name [] hwf.1
+    have hins := insertAll_nodup (normL d.kids 0) (by rw [normL_names]; exact hwf.2.2)
+    rw [e0]
+    simp only [parseDds, s1, s2, s3, s4, hins, normDs]
+
 end Pydap.Dds
